@@ -8,13 +8,14 @@
        [k |-> "chain",  ms |-> <<node, ...>>]      chain_authenticate (OR: first acceptance wins)
        [k |-> "reqall", gate, inner]               require_all (AND: gate first, then inner; inner may be [k |-> "none"])
    impl says which real authenticator stands behind the node ("stub" = header-driven stub; "bearer" =
-   bearer_authenticate_static; "xfcc" = mtls_authenticate_xfcc; gates: "stubgate", "proof_require",
+   bearer_authenticate_static; "xfcc" = mtls_authenticate_xfcc; "pem" = mtls_authenticate on a PEM header; gates: "stubgate", "proof_require",
    "proof_allow" = proxy_proof_gate);  decl = the callable declares a proxy-injected header.
 
    Outcomes:  ok      accept                               miss/inv/exp/scope/proxy/unauth  AuthFailure(reason)
               ve      bare ValueError                      pe      bare PermissionError
               proof   ProofError (a PermissionError)       down    AuthUnavailableError (outage)
               bogus   AuthFailure carrying a reason that is not a member of the closed set
+              ve_sub  a ValueError subclass (UnicodeDecodeError)   pe_attr  a PermissionError that declares a reason
    ValueError-class outcomes make a chain try the next alternative, PermissionError-class ones and outages
    propagate.  Eval is the composition semantics of §3.1 of the document.                                  *)
 EXTENDS Naturals, Sequences, FiniteSets
@@ -25,14 +26,15 @@ CONSTANTS Outs,        \* outcome alphabet of stub leaves (subset of AllOuts)
 
 Closed == {"missing_credential", "invalid_credential", "expired_credential", "insufficient_scope",
            "proxy_required", "unauthorized"}
-AllOuts == {"ok", "miss", "inv", "exp", "scope", "proxy", "unauth", "ve", "pe", "proof", "down", "bogus"}
+AllOuts == {"ok", "miss", "inv", "exp", "scope", "proxy", "unauth", "ve", "pe", "proof", "down", "bogus", "ve_sub", "pe_attr"}
 Reason(o) == CASE o = "miss" -> "missing_credential" [] o = "inv" -> "invalid_credential"
                [] o = "exp" -> "expired_credential"  [] o = "scope" -> "insufficient_scope"
                [] o = "proxy" -> "proxy_required"    [] o = "unauth" -> "unauthorized"
                [] o = "ve" -> "unauthorized"         [] o = "pe" -> "insufficient_scope"
                [] o = "proof" -> "proxy_required"    [] o = "bogus" -> "unauthorized"
+               [] o = "ve_sub" -> "unauthorized"     [] o = "pe_attr" -> "invalid_credential"
                [] OTHER -> "none"
-IsPE(o) == o \in {"pe", "proof"}
+IsPE(o) == o \in {"pe", "proof", "pe_attr"}
 
 \* ---------------------------------------------------------------- composition semantics
 Acc == [r |-> "accept", reason |-> "none", pe |-> FALSE, allmiss |-> FALSE]
@@ -73,6 +75,7 @@ Leaf(impl, decl, out) == [k |-> "leaf", impl |-> impl, decl |-> decl, out |-> ou
 Stub0(A) == {Leaf("stub", FALSE, o) : o \in A}
 StubD(A) == {Leaf("stub", TRUE, o) : o \in A}
 Real == {Leaf("bearer", FALSE, o) : o \in {"ok", "miss", "inv"}} \cup {Leaf("xfcc", TRUE, o) : o \in {"ok", "proxy", "inv"}}
+        \cup {Leaf("pem", TRUE, o) : o \in {"ok", "proxy", "inv", "exp"}}       \* mtls_authenticate(check_expiry=TRUE)
 Leaves == Stub0(Outs) \cup StubD(Outs) \cup Real
 Chain(ms) == [k |-> "chain", ms |-> ms]
 None == [k |-> "none"]
@@ -87,6 +90,7 @@ Chains2 == {Chain(<<q[1], q[2]>>) : q \in {p \in (Stub0(Outs) \cup Real) \X (Stu
            \cup {Chain(<<a, b>>) : a \in StubD(Outs3), b \in Stub0(Outs3)}
            \cup {Chain(<<a, b>>) : a \in Stub0(Outs3), b \in StubD(Outs3)}
 DeclOuts == {"miss", "exp", "pe"} \cap Outs
+NestOuts == IF Deep THEN Outs3 ELSE {"ok", "miss", "inv", "ve", "pe"} \cap Outs
 Chains3 == {Chain(<<a, b, c>>) : a \in Stub0(Outs3), b \in Stub0(Outs3), c \in Stub0(Outs3) \cup {Leaf("bearer", FALSE, "miss")}}
            \cup {Chain(<<a, b, c>>) : a \in StubD(DeclOuts), b \in Stub0(DeclOuts), c \in Stub0(DeclOuts)}
            \cup {Chain(<<a, b, c>>) : a \in Stub0(DeclOuts), b \in StubD(DeclOuts), c \in Stub0(DeclOuts)}
@@ -95,13 +99,24 @@ ReqAlls == {ReqAll(g, i) : g \in Gates, i \in {None} \cup Leaves}
 Nested == {ReqAll(g, Chain(<<a, b>>)) : g \in Gates, a \in Stub0(Outs3), b \in Stub0(Outs3)}
           \cup {Chain(<<ReqAll(g, a), b>>) : g \in Gates, a \in Stub0(Outs3), b \in Stub0(Outs3)}
           \cup {Chain(<<a, ReqAll(g, b)>>) : g \in Gates, a \in Stub0(Outs3), b \in Stub0(Outs3)}
-Trees == Leaves \cup Chains2 \cup ReqAlls \cup (IF Deep THEN Chains3 \cup Nested ELSE {})
+\* a chain used as one alternative of another chain (its combined AuthFailure is what the outer chain sees)
+ChainInChain == {Chain(<<Chain(<<a, b>>), c>>) : a \in Stub0(NestOuts), b \in Stub0(NestOuts), c \in Stub0(NestOuts)}
+                \cup {Chain(<<a, Chain(<<b, c>>)>>) : a \in Stub0(NestOuts), b \in Stub0(NestOuts), c \in Stub0(NestOuts)}
+Trees == Leaves \cup Chains2 \cup ReqAlls \cup ChainInChain \cup (IF Deep THEN Chains3 \cup Nested ELSE {})
 
-Cfgs == [pah : BOOLEAN, ppr : BOOLEAN, pkce : BOOLEAN]
-Cfg0 == [pah |-> FALSE, ppr |-> FALSE, pkce |-> FALSE]
-Accepts == {"absent", "any", "json", "html", "html_mixed", "arrow"}
-Routes == {"unary", "init", "landing", "describe", "session"}
+Cfgs3 == [pah : BOOLEAN, ppr : BOOLEAN, pkce : BOOLEAN, www : {FALSE}, otel : {FALSE}]
+Cfg0 == [pah |-> FALSE, ppr |-> FALSE, pkce |-> FALSE, www |-> FALSE, otel |-> FALSE]
+CfgPah == [Cfg0 EXCEPT !.pah = TRUE]
+\* www: OAuth resource metadata without the browser flow (a WWW-Authenticate challenge on every 401);
+\* otel: OpenTelemetry instrumentation (an auth-failure callback runs inside the rejection path)
+Cfgs == Cfgs3 \cup {[Cfg0 EXCEPT !.www = TRUE], [Cfg0 EXCEPT !.otel = TRUE], [CfgPah EXCEPT !.www = TRUE, !.otel = TRUE]}
+Accepts == {"absent", "any", "json", "html", "html_mixed", "arrow", "text_plain", "xml", "json_q", "empty"}
+Routes == {"unary", "init", "landing", "describe", "session", "exchange", "upload", "introspect_token", "foreign"}
 WantsHtml(a) == a \in {"html", "html_mixed"}
+\* detail: the text the rejecting stub puts into its exception ("shared" = the same text for every reason, "unique" = a
+\* text no other request used); cache: "flooded" = asked after the service has rendered more distinct (reason, detail)
+\* pairs than its rendered-body cache holds
+Details == {"default", "shared", "empty", "special", "unique"}
 \* the rendering / configuration dimensions are crossed with a small set of compositions only
 SmallTrees == {t \in Leaves : t.out \in {"miss", "exp", "pe", "proof", "down", "ve", "ok"} \cap (Outs \cup {"ok"})}
               \cup {Chain(<<Leaf("stub", FALSE, "miss"), Leaf("xfcc", TRUE, "proxy")>>),
@@ -110,13 +125,22 @@ SmallTrees == {t \in Leaves : t.out \in {"miss", "exp", "pe", "proof", "down", "
                     ReqAll([impl |-> "proof_require", decl |-> TRUE, out |-> "pass"], Leaf("bearer", FALSE, "inv")),
                     ReqAll([impl |-> "proof_allow", decl |-> FALSE, out |-> "unproven"], Leaf("bearer", FALSE, "miss")),
                     ReqAll([impl |-> "stubgate", decl |-> TRUE, out |-> "pass"], Leaf("stub", FALSE, "exp"))}
-Cases == [cfg : {Cfg0}, tree : Trees, accept : {"any"}, route : {"unary"}]
-         \cup [cfg : Cfgs, tree : SmallTrees, accept : Accepts, route : {"unary"}]
-         \cup (IF Deep THEN [cfg : {g \in Cfgs : ~g.pkce}, tree : SmallTrees, accept : Accepts, route : Routes]
-                     ELSE [cfg : {Cfg0, [pah |-> TRUE, ppr |-> FALSE, pkce |-> FALSE]}, tree : SmallTrees,
-                           accept : {"any", "html"}, route : Routes])
+StubTrees == {t \in SmallTrees : t.k = "leaf" /\ t.impl = "stub" /\ ~t.decl}
+Cases == [cfg : {Cfg0}, tree : Trees, accept : {"any"}, route : {"unary"}, detail : {"default"}, cache : {"fresh"}]
+         \cup [cfg : Cfgs, tree : SmallTrees, accept : Accepts, route : {"unary"}, detail : {"default"}, cache : {"fresh"}]
+         \cup [cfg : {Cfg0, CfgPah}, tree : StubTrees, accept : {"any", "html", "json_q"}, route : {"unary"},
+                detail : Details, cache : {"fresh", "flooded"}]
+         \cup (IF Deep THEN [cfg : {g \in Cfgs : ~g.pkce}, tree : SmallTrees, accept : Accepts, route : Routes,
+                              detail : {"default"}, cache : {"fresh"}]
+                     ELSE [cfg : {Cfg0, CfgPah}, tree : SmallTrees, accept : {"any", "html"}, route : Routes,
+                           detail : {"default"}, cache : {"fresh"}])
 
-Expected(c) == LET e == EvalTop(c) IN
+\* "foreign": the authenticator accepts and a resource behind it answers falcon.HTTPUnauthorized -- a 401 of the
+\* service that did not come from the authenticate callback (unclassified => "unauthorized")
+EvalReq(c) == LET e == EvalTop(c) IN
+              IF c.route = "foreign" /\ e.r = "accept" THEN Rej("unauthorized", FALSE, FALSE) ELSE e
+
+Expected(c) == LET e == EvalReq(c) IN
   [r |-> e.r, reason |-> e.reason, allmiss |-> e.allmiss, pe |-> e.pe, depends |-> Depends(c), html |-> WantsHtml(c.accept)]
 
 \* ---------------------------------------------------------------- table sanity (TLC, every case)
@@ -140,7 +164,7 @@ AllowGateNeverDeclares(c) == (c.tree.k = "reqall" /\ c.tree.gate.impl = "proof_a
 Viol(name, ok) == IF ok THEN {} ELSE {name}
 NotePresent(o) == o.phdr # "" \/ o.bhint \/ o.hhtml
 Conforms(c, o) ==
-  LET e == EvalTop(c) IN
+  LET e == EvalReq(c) IN
   IF e.r = "reject" THEN
          Viol("Is401", o.status = 401)
     \cup Viol("ReasonHeader", o.hreason # "")
@@ -171,7 +195,7 @@ BodyShapes == {"envelope", "envelope_extra", "envelope_bom", "envelope_utf16", "
                "number", "null", "true", "nan", "bignum", "html_doctype", "html_tag", "html_upper", "text", "empty",
                "whitespace", "binary", "invalid_utf8", "arrow_ipc", "deep_array", "deep_object", "dup_keys"}
 FaithfulShapes == {"envelope", "envelope_extra", "envelope_bom", "envelope_utf16", "obj_detail_nonstr", "obj_long_detail"}
-Entry == {"parse", "unary", "stream", "stream_header"}
+Entry == {"parse", "unary", "stream", "stream_header", "exchange_turn", "continuation", "introspect", "upload_urls"}
 ClientCases == [shape : BodyShapes, reason : Closed, entry : Entry]
 ClientExpected(c) == [faithful |-> c.shape \in FaithfulShapes]
 (* o = [raised: type name of what the client raised ("" if nothing), reason: its .reason ("" if none)] *)
